@@ -68,6 +68,11 @@ func c08WaitRun(c *Ctx, cs c08WaitCase) {
 	opt := lpOptions{CutSeed: string(b), CutClass: cs.Cut, Timeout: timeout}
 	if cs.Kind == "never-completes" {
 		opt.NoEOM = true
+	} else if cs.Kind == "trailing" {
+		// a valid acceptance followed by further packages, more than the
+		// package queue holds (the reader is parked on the full queue when
+		// Login finishes)
+		opt.QueueSize = cs.Queue
 	} else {
 		opt.QueueSize = cs.Queue
 		second := lpScript{Flow: "plain", Rounds: [][]lpItem{{lpLoginAck(srv.LogSucceed), lpDone(0)}}}
@@ -104,7 +109,7 @@ func c08WaitRun(c *Ctx, cs c08WaitCase) {
 		}
 	case pi != nil:
 		r.Violate("panic/"+pi.Frame+"/wait/"+cs.Kind, fmt.Sprintf("script %s (%s): %s panicked: %s", cs.Name, cs.Kind, which, pi.Value), cs)
-	case !res.ran2 && err == nil && cs.Name != "plain-valid" && cs.Name != "enc-valid":
+	case cs.Kind == "never-completes" && err == nil && cs.Name != "plain-valid" && cs.Name != "enc-valid":
 		r.Violate("accepted-invalid-reply/never-completes/"+cs.Script.Flow, fmt.Sprintf("script %s, whose last reply neither completes nor forms an acceptance: Login returned nil", cs.Name), cs)
 	default:
 		r.SetAdd("wait_outcomes", fmt.Sprintf("%s/%s/error:%v", cs.Kind, cs.Name, err != nil))
@@ -126,6 +131,18 @@ func runC08Wait(c *Ctx) {
 		}
 		for _, q := range []int{1, 2, 3, 5} {
 			c08WaitRun(c, c08WaitCase{Family: "wait", Kind: "relogin", Name: n, Script: scripts[n], Queue: q, Cut: "one-packet"})
+		}
+	}
+	for _, n := range []string{"plain-valid", "enc-valid"} {
+		for _, q := range []int{1, 2, 3} {
+			for _, extra := range []int{q + 1, q + 2, q + 6} {
+				sc := scripts[n].clone()
+				last := len(sc.Rounds) - 1
+				for i := 0; i < extra; i++ {
+					sc.Rounds[last] = append(sc.Rounds[last], lpDone(0))
+				}
+				c08WaitRun(c, c08WaitCase{Family: "wait", Kind: "trailing", Name: fmt.Sprintf("%s+%d-more-final-DONEs", n, extra), Script: sc, Queue: q, Cut: "one-packet"})
+			}
 		}
 	}
 }
